@@ -391,6 +391,24 @@ class StmtMixin:
             self.loop_stack.pop()
             if not peel:
                 self.quiet -= 1
+        # further peeled iterations (peel_depth > 1): each continues from the state the previous one ended in
+        if peel and not probe.dead:
+            cur = probe
+            for _k in range(1, int(getattr(self, "peel_depth", 1))):
+                nxt = cur.clone()
+                ck_ = truthy(self.ev(s.test, nxt, mod, fn))
+                if nxt.dead or is_const(ck_, False):
+                    break
+                nxt.add_fact(ck_)
+                nxt.pc.append(ck_)
+                self.loop_stack.append({"breaks": [], "kind": "probe"})
+                try:
+                    self.block(s.body, nxt, mod, fn, [])
+                finally:
+                    self.loop_stack.pop()
+                if nxt.dead:
+                    break
+                cur = nxt
         assigned = {n.id for st in s.body for n in ast.walk(st) if isinstance(n, ast.Name) and isinstance(n.ctx, ast.Store)}
         mod_vars = set(k for k, v in probe.vars.items() if k in before_vars and before_vars[k] != v) | (assigned & set(before_vars))
         # mutated containers (x.append(..)) also show up as changed values in the probe
